@@ -9,6 +9,9 @@ CHECKS = {
  "C14": ("exhaustive enumeration of haystack x needle pairs against a byte-slice reference + explicit-state BFS over cursor operation histories in lock-step with a Vec+index model",
          "All haystacks of <=6 (quick) / <=8 (thorough) bytes over 6 boundary bytes x all 84 needles of 1..3 units through the six OsStrExt helpers against naive byte search; all cursor histories of 21 operations (overflowing offsets included) to depth 7/9 from lists of 0..3 items, every transition compared with the list-index model. Exhaustive within those bounds.",
          "Trusted: the naive byte search and the Vec+index model (two variants: index free-runs past len or stays at len; the implementation must match one consistently).", "DESIGN.md §4 C14"),
+ "C20": ("exhaustive enumeration of all strings up to K atoms over an 8-atom alphabet x widths 0..8 x {plain, styled}, alignment-relation oracle + independent width function",
+         "Every string of <=6 (quick) / <=7 (thorough) atoms over {a, bb, space, newline, wide char, combining mark, two ANSI sequences} is wrapped by the real textwrap::wrap (via {author}) and StyledStr::wrap (via {about}) at every width 0..8 and compared with the alignment relation (only whole runs of spaces become a break + the line's indent; everything else byte-identical and in order) and, for plain text, the width bound with an independent width function. Exhaustive within alphabet, length and width bounds.",
+         "Trusted: the alignment relation and width function in checks/src/bin/c20.rs; access through help templates <{author}> / <{about}> (sentinels verified by a self-test on every run).", "DESIGN.md §4 C20"),
 }
 PENDING_REASON = "check not built yet in this round (design in DESIGN.md §4); will be claimed when its checker exists"
 props = [json.loads(l) for l in open('/verif/properties.jsonl')]
